@@ -34,16 +34,16 @@ ENGINE = "E1 exhaustive product enumerator"
 RULE = ("objects: BPSK, QPSK(+setPhaseOffset), PSK(2^1..2^10, 8 offsets) constructed and after "
         "setPhaseOffset(8 offsets) from every constructed offset, QAM(4^1..4^6); per object every "
         "index 0..M-1 in 8 presentations, 4 invalid indexes alone and mixed, and the sample family "
-        "{constellation points, midpoint +-delta*n (delta/dmin in 1e-6,1e-3,0.25 [thorough: +1e-8]; "
+        "{constellation points, midpoint +-delta*n (delta/dmin in 1e-11,1e-9,1e-6,1e-3,0.25 [thorough: + 1e-10,1e-8,1e-4]; "
         "tangential shifts 0,+-0.4 dmin) of every Gabriel-adjacent pair, 65x65 [129x129] lattice over "
         "[-1.6,1.6]^2, 64 [256] rays x radii 1e-12,10,1e6} as 1-D/2-D/0-d arrays against brute-force argmin of squared distance "
         "(ties excluded by a margin test); constructors on every integer 0..4100. A case is "
         "non-trivial when the table has >= 2 points; distinct = distinct (kind, M, table digest)")
 
-TIE_REL_DMIN2 = 1e-9          # margin test: gap of squared distances < 1e-9 dmin^2 -> tie
+TIE_REL_DMIN2 = 1e-12         # margin test: gap of squared distances < 1e-12 dmin^2 -> tie
 TIE_REL_FLOAT = 64 * EPS      # ... or below the float resolution of a squared distance
 ENERGY_TOL = 1e-12
-DELTAS = (1e-6, 1e-3, 0.25)
+DELTAS = (1e-11, 1e-9, 1e-6, 1e-3, 0.25)
 TANGENT = (0.0, 0.4, -0.4)
 MAX_CARD = 4100
 LIB_CHUNK_ELEMS = 1 << 22     # the library broadcasts M x N complex values per call
@@ -69,7 +69,9 @@ def units(tier):
             out.append({"kind": "psk", "M": M, "final": j, "level": lev if (th or k <= 8) else 0})
         if k % 2 == 0:
             out.append({"kind": "qam", "M": M, "level": lev if (th or k <= 8) else 0})
-    out.append({"kind": "qam", "M": 4 ** 6, "level": lev if th else 0})
+    # the 4096-point table is the heaviest object: its sample family is split in 8 slices
+    for part in range(8):
+        out.append({"kind": "qam", "M": 4 ** 6, "level": lev if th else 0, "part": [part, 8]})
     for cls in ("PSK", "QAM"):
         for a in range(0, MAX_CARD + 1, 256):
             out.append({"kind": "ctor", "cls": cls, "lo": a, "hi": min(MAX_CARD + 1, a + 256)})
@@ -86,7 +88,9 @@ def histories(u):
         return [[]] + [[["set", p]] for p in offs]
     offs = offsets(u["M"])
     p1 = offs[u["final"]]
-    return [[["new", p1]]] + [[["new", p0], ["set", p1]] for p0 in offs]
+    # level 0 (quick tier, M >= 512): setPhaseOffset from two initial offsets only
+    starts = offs if u["level"] >= 1 else [offs[0], offs[7]]
+    return [[["new", p1]]] + [[["new", p0], ["set", p1]] for p0 in starts]
 
 
 def build(kind, M, hist):
@@ -109,8 +113,9 @@ def build(kind, M, hist):
 
 
 def kind_label(kind, hist):
-    if kind in ("psk", "qpsk") and any(ev[0] == "set" for ev in hist):
-        return kind + "_after_setPhaseOffset"
+    """label used in signatures (QPSK is a PSK)"""
+    if kind in ("psk", "qpsk"):
+        return "psk_after_setPhaseOffset" if any(ev[0] == "set" for ev in hist) else "psk"
     return kind
 
 
@@ -190,9 +195,9 @@ def sample_family(sym, dmin, pairs, level):
     """list of (family, complex samples); deterministic function of the table.
     level 0: constellation points + boundary probes without tangential shift;
     level 1: + tangential shifts, 65x65 lattice, rays;
-    level 2: + delta/dmin = 1e-8, 129x129 lattice, 256 ray angles."""
+    level 2: + delta/dmin = 1e-10, 1e-8, 1e-4, 129x129 lattice, 256 ray angles."""
     full = level >= 1
-    deltas = DELTAS + ((1e-8,) if level >= 2 else ())
+    deltas = DELTAS + ((1e-10, 1e-8, 1e-4) if level >= 2 else ())
     nl, na = (129, 256) if level >= 2 else (65, 64)
     s = np.asarray(sym).astype(complex).ravel()
     fam = [("points", s.copy())]
@@ -220,13 +225,17 @@ def sample_family(sym, dmin, pairs, level):
 _ORACLE = {}
 
 
-def oracle_for(sym, level):
-    key = (np.ascontiguousarray(sym).tobytes(), str(np.asarray(sym).dtype), level)
+def oracle_for(sym, level, part=(0, 1)):
+    """part (p, P): every family except the constellation points themselves is
+    restricted to the samples p, p+P, p+2P, ... (the P parts are separate work units)"""
+    key = (np.ascontiguousarray(sym).tobytes(), str(np.asarray(sym).dtype), level, tuple(part))
     r = _ORACLE.get(key)
     if r is None:
         dmin, pairs = table_geometry(sym)
         fams = []
         for name, z in sample_family(sym, dmin, pairs, level):
+            if name != "points":
+                z = z[part[0]::part[1]]
             idx, best, second = nearest(sym, z)
             thr = TIE_REL_DMIN2 * dmin * dmin + TIE_REL_FLOAT * best if np.isfinite(dmin) else 0 * best
             tie = (second - best) < thr
@@ -331,10 +340,10 @@ def check_invalid_indexes(chk, lab, m, M, spec):
     for name, idx in inputs:
         case = dict(spec, what="invalid_index", form=name, index=idx)
         chk.count("eval_invalid_index_calls")
+        chk.outcome("invalid_index", (lab.split("_")[0], name))
         try:
             out = m.modulate(idx)
         except ValueError:
-            chk.outcome("invalid_index", (lab.split("_")[0], "ValueError"))
             continue
         except Exception as e:  # noqa
             chk.fail(("modulate", "invalid_index", "raised_" + type(e).__name__), case,
@@ -380,13 +389,13 @@ def compare_detection(chk, lab, m, sym, spec, family, form, z, idx, best, thr, t
     rng_bad = np.nonzero((got < 0) | (got >= M))[0]
     if rng_bad.size:
         n = int(rng_bad[0])
-        chk.fail(("demodulate", lab, "index_out_of_range", family), dict(base, sample=complex(z[n])),
+        chk.fail(("demodulate", lab, "index_out_of_range"), dict(base, sample=complex(z[n])),
                  observed=int(got[n]), expected="in [0,%d)" % M)
         return
     wrong = np.nonzero((got != idx) & ~tie)[0]
     if wrong.size:
         n = int(wrong[0])
-        chk.fail(("demodulate", lab, "not_nearest", family), dict(base, sample=complex(z[n])),
+        chk.fail(("demodulate", lab, "not_nearest", "near_boundary" if family == "boundary" else "interior"), dict(base, sample=complex(z[n])),
                  observed="index %d at squared distance %r" % (int(got[n]),
                                                                 abs(complex(sym[got[n]]) - complex(z[n])) ** 2),
                  expected="index %d at squared distance %r" % (int(idx[n]), float(best[n])),
@@ -398,37 +407,39 @@ def compare_detection(chk, lab, m, sym, spec, family, form, z, idx, best, thr, t
         far = np.nonzero(d2 > best[t] + 2 * thr[t])[0]
         if far.size:
             n = int(t[far[0]])
-            chk.fail(("demodulate", lab, "tie_resolved_to_far_point", family),
+            chk.fail(("demodulate", lab, "tie_resolved_to_far_point"),
                      dict(base, sample=complex(z[n])), observed=int(got[n]), expected=int(idx[n]))
 
 
 def check_detection(chk, lab, m, M, spec, level):
     sym = np.asarray(m.symbols)
-    dmin, pairs, fams = oracle_for(sym, level)
+    dmin, pairs, fams = oracle_for(sym, level, tuple(spec.get("part", (0, 1))))
+    # non-vacuity is measured on the oracle side, before the implementation is consulted
     hit = set()
     for family, z, idx, best, thr, tie in fams:
         hit.update(np.unique(idx[~tie]).tolist())
         chk.count("excluded_ties_" + family, int(tie.sum()))
         if family == "boundary":
-            nb = int((~tie).sum())
-            chk.count("near_boundary_samples_decided", nb)
-        forms = ["1d", "2d"]
-        for form in forms:
-            compare_detection(chk, lab, m, sym, spec, family, form, z, idx, best, thr, tie)
-        # 0-d presentation: the first and last 8 samples of the family
-        sel = np.unique(np.concatenate([np.arange(min(8, z.size)), np.arange(max(0, z.size - 8), z.size)]))
-        compare_detection(chk, lab, m, sym, spec, family, "0d", z[sel], idx[sel], best[sel], thr[sel], tie[sel])
-        if lab == "bpsk":
-            # real-dtype input: the real parts alone (imaginary part dropped -> own oracle run)
-            zr = z.real + 0j
-            i2, b2, s2 = nearest(sym, zr)
-            th2 = TIE_REL_DMIN2 * dmin * dmin + TIE_REL_FLOAT * b2
-            compare_detection(chk, lab, m, sym, spec, family, "1d", zr, i2, b2, th2, (s2 - b2) < th2,
-                              real_input=True)
-    chk.outcome("regions_hit", (lab.split("_")[0], M, len(hit)))
-    chk.outcome("adjacent_pairs", (lab.split("_")[0], M, int(len(pairs))))
+            chk.count("near_boundary_samples_decided", int((~tie).sum()))
+    chk.outcome("regions_hit", (spec["kind"], M, len(hit)))
+    chk.outcome("adjacent_pairs", (spec["kind"], M, int(len(pairs))))
     if len(hit) != M:
         chk.count("vacuity_regions_not_all_hit")
+    for family, z, idx, best, thr, tie in fams:
+        with chk.guard(("demodulate", lab), dict(spec, what="object", family=family)):
+            forms = ["1d", "2d"] if (level >= 1 or family == "points") else ["1d"]
+            for form in forms:
+                compare_detection(chk, lab, m, sym, spec, family, form, z, idx, best, thr, tie)
+            # 0-d presentation: the first and last 8 samples of the family
+            sel = np.unique(np.concatenate([np.arange(min(8, z.size)), np.arange(max(0, z.size - 8), z.size)]))
+            compare_detection(chk, lab, m, sym, spec, family, "0d", z[sel], idx[sel], best[sel], thr[sel], tie[sel])
+            if lab == "bpsk":
+                # real-dtype input: the real parts alone (imaginary part dropped -> own oracle run)
+                zr = z.real + 0j
+                i2, b2, s2 = nearest(sym, zr)
+                th2 = TIE_REL_DMIN2 * dmin * dmin + TIE_REL_FLOAT * b2
+                compare_detection(chk, lab, m, sym, spec, family, "1d", zr, i2, b2, th2, (s2 - b2) < th2,
+                                  real_input=True)
     return dmin
 
 
@@ -436,6 +447,10 @@ def check_object(chk, u, hist):
     kind, M, level = u["kind"], u["M"], int(u["level"])
     lab = kind_label(kind, hist)
     spec = {"kind": kind, "M": M, "history": hist, "level": level}
+    first_part = True
+    if "part" in u:
+        spec["part"] = [int(v) for v in u["part"]]
+        first_part = spec["part"][0] == 0
     with chk.guard(("object", lab), dict(spec, what="object")):
         m = build(kind, M, hist)
         chk.count("eval_objects")
@@ -443,12 +458,14 @@ def check_object(chk, u, hist):
         if prob is not None:
             chk.fail(("table", lab, prob[0]), dict(spec, what="object"), observed=prob[1],
                      expected="%d distinct finite points, mean energy 1 +- %g, M, K=log2 M" % (M, ENERGY_TOL))
-            if prob[0] in ("wrong_size", "nonfinite_constellation"):
-                return
+            if prob[0] in ("wrong_size", "nonfinite_constellation", "repeated_points"):
+                return      # no well-defined nearest point / index set
         sym = np.asarray(m.symbols)
         chk.nontriv((kind, M, bfs.digest(sym, 9)))
-        check_roundtrip(chk, lab, m, M, spec)
-        check_invalid_indexes(chk, lab, m, M, spec)
+        if first_part:
+            check_roundtrip(chk, lab, m, M, spec)
+            with chk.guard(("modulate", "invalid_index", lab), dict(spec, what="object")):
+                check_invalid_indexes(chk, lab, m, M, spec)
         check_detection(chk, lab, m, M, spec, level)
         # the table itself must not have been modified by any of the calls
         if not np.array_equal(sym, np.asarray(build(kind, M, hist).symbols)):
@@ -501,7 +518,7 @@ def run_unit(chk, u):
 # ----------------------------------------------------------------------
 def main(chk: Check):
     chk.assume("a received sample is an excluded tie when its two smallest squared distances differ by "
-               "less than 1e-9*dmin^2 + 64*2^-52*(smallest squared distance); on a tie the library must "
+               "less than 1e-12*dmin^2 + 64*2^-52*(smallest squared distance); on a tie the library must "
                "still return a point within that margin")
     chk.assume("boundary probes use the Gabriel-adjacent pairs (midpoint in the interior of the common "
                "Voronoi edge) among the 8 nearest neighbours of every point; for PSK and square QAM "
@@ -515,8 +532,10 @@ def main(chk: Check):
     chk.extra["cardinalities_scanned"] = "0..%d for PSK and QAM" % MAX_CARD
     if chk.tier != "thorough":
         chk.extra["quick_tier_bound"] = ("PSK 512/1024 and QAM 1024/4096: constellation points and "
-                                         "boundary probes (no tangential shifts) only; lattice and rays "
-                                         "for PSK <= 256, QAM <= 256")
+                                         "boundary probes (no tangential shifts, 1-D presentation) only, "
+                                         "setPhaseOffset from 2 of the 8 initial offsets; lattice, rays, "
+                                         "2-D boundary probes and all 8x8 offset histories for PSK <= 256, "
+                                         "QAM <= 256; the thorough tier has no such restriction")
 
     def worker(i, n, c):
         for u in shard(units(c.tier), i, n):
@@ -532,7 +551,7 @@ def main(chk: Check):
                      % chk.counters["vacuity_regions_not_all_hit"])
     chk.require_outcomes("regions_hit", 18)
     chk.require_outcomes("ctor", 4)
-    chk.require_outcomes("invalid_index", 3)
+    chk.require_outcomes("invalid_index", 12)
     if not chk.counters.get("near_boundary_samples_decided"):
         raise Broken("vacuous: no decided near-boundary sample")
 
@@ -544,6 +563,8 @@ def replay(case, chk: Check):
     kind, M = case["kind"], int(case["M"])
     hist = [[ev[0], float(ev[1])] for ev in case.get("history", [])]
     u = {"kind": kind, "M": M, "level": int(case.get("level", 1))}
+    if "part" in case:
+        u["part"] = [int(v) for v in case["part"]]
     if case.get("what") == "demodulate" and "sample" in case:
         lab = kind_label(kind, hist)
         spec = {"kind": kind, "M": M, "history": hist, "level": u["level"]}
